@@ -260,7 +260,7 @@ GenStruct(fields, v, r, salt, mode) ==
         keep  == {i \in 1..Len(act) : ~picks[i].null}
     IN  [n \in {act[i].name : i \in keep} |-> picks[CHOOSE i \in keep : act[i].name = n].val]
 
-\* the "rich" value used as the well-formed base frame of WireFuzz: every array has one element, every string /
+\* the "rich" value used as the well-formed base frame of WireFuzz: every array has two elements (a decoder's state after a bad element meets a next element), every string /
 \* bytes field is present with one or two bytes, so that every length field of the message occurs in the frame
 RECURSIVE RichStruct(_, _, _), RichElem(_, _, _)
 RichElem(f, v, recs) ==
@@ -273,5 +273,5 @@ RichStruct(fields, v, recs) ==
     LET act == SelectSeq(fields, LAMBDA f: Active(f, v)) IN
     [n \in {act[i].name : i \in 1..Len(act)} |->
         LET f == act[CHOOSE i \in 1..Len(act) : act[i].name = n] IN
-        IF f.arr THEN << RichElem(f, v, recs) >> ELSE RichElem(f, v, recs)]
+        IF f.arr THEN << RichElem(f, v, recs), RichElem(f, v, recs) >> ELSE RichElem(f, v, recs)]
 =============================================================================
